@@ -104,14 +104,15 @@ theorem genesis_cases (s : State σ κ) (a : σ) (amt : Int) :
 
 theorem execDeposit_cases (s : State σ κ) (a e : σ) (amt : Int) :
     Failed (execDeposit c s a e amt) s ∨
-    (a ≠ e ∧ checkAmount amt = true ∧
-      execDeposit c s a e amt =
-        (saveSub c s e { loadSub c s a e with bal := wrap ((loadSub c s a e).bal + amt) }, .ok)) := by
+    ∃ nb, a ≠ e ∧ checkAmount amt = true ∧ safeAdd (loadSub c s a e).bal amt = some nb ∧
+      execDeposit c s a e amt = (saveSub c s e { loadSub c s a e with bal := nb }, .ok) := by
   unfold execDeposit Failed
   by_cases h0 : a = e
   · left; simp [h0, Res.isErr]
   · by_cases h1 : checkAmount amt = true
-    · right; exact ⟨h0, h1, by simp [h0, h1]⟩
+    · cases h4 : safeAdd (loadSub c s a e).bal amt with
+      | none => left; simp [h0, h1, h4, Res.isErr]
+      | some nb => right; exact ⟨nb, h0, h1, rfl, by simp [h0, h1, h4]⟩
     · left; simp [h0, h1, Res.isErr]
 
 theorem execWithdraw_cases (s : State σ κ) (e a : σ) (amt : Int) :
@@ -130,63 +131,88 @@ theorem execWithdraw_cases (s : State σ κ) (e a : σ) (amt : Int) :
 
 theorem execFrozen_cases (s : State σ κ) (a e : σ) (amt : Int) :
     Failed (execFrozen c s a e amt) s ∨
-    (a ≠ e ∧ checkAmount amt = true ∧ 0 ≤ wrap ((loadSub c s a e).bal - amt) ∧
+    ∃ nf, a ≠ e ∧ checkAmount amt = true ∧ 0 ≤ wrap ((loadSub c s a e).bal - amt) ∧
+      safeAdd (loadSub c s a e).frz amt = some nf ∧
       execFrozen c s a e amt =
-        (saveSub c s e { loadSub c s a e with bal := wrap ((loadSub c s a e).bal - amt),
-                                                frz := wrap ((loadSub c s a e).frz + amt) }, .ok)) := by
+        (saveSub c s e { loadSub c s a e with bal := wrap ((loadSub c s a e).bal - amt), frz := nf }, .ok) := by
   unfold execFrozen Failed
   by_cases h0 : a = e
   · left; simp [h0, Res.isErr]
   · by_cases h1 : checkAmount amt = true
     · by_cases h2 : wrap ((loadSub c s a e).bal - amt) < 0
       · left; simp [h0, h1, h2, Res.isErr]
-      · right; exact ⟨h0, h1, by omega, by simp [h0, h1, h2]⟩
+      · cases h4 : safeAdd (loadSub c s a e).frz amt with
+        | none => left; simp [h0, h1, h2, h4, Res.isErr]
+        | some nf => right; exact ⟨nf, h0, h1, by omega, rfl, by simp [h0, h1, h2, h4]⟩
     · left; simp [h0, h1, Res.isErr]
 
 theorem execActive_cases (s : State σ κ) (a e : σ) (amt : Int) :
     Failed (execActive c s a e amt) s ∨
-    (a ≠ e ∧ checkAmount amt = true ∧ 0 ≤ wrap ((loadSub c s a e).frz - amt) ∧
+    ∃ nb, a ≠ e ∧ checkAmount amt = true ∧ 0 ≤ wrap ((loadSub c s a e).frz - amt) ∧
+      safeAdd (loadSub c s a e).bal amt = some nb ∧
       execActive c s a e amt =
-        (saveSub c s e { loadSub c s a e with bal := wrap ((loadSub c s a e).bal + amt),
-                                                frz := wrap ((loadSub c s a e).frz - amt) }, .ok)) := by
+        (saveSub c s e { loadSub c s a e with bal := nb, frz := wrap ((loadSub c s a e).frz - amt) }, .ok) := by
   unfold execActive Failed
   by_cases h0 : a = e
   · left; simp [h0, Res.isErr]
   · by_cases h1 : checkAmount amt = true
     · by_cases h2 : wrap ((loadSub c s a e).frz - amt) < 0
       · left; simp [h0, h1, h2, Res.isErr]
-      · right; exact ⟨h0, h1, by omega, by simp [h0, h1, h2]⟩
+      · cases h4 : safeAdd (loadSub c s a e).bal amt with
+        | none => left; simp [h0, h1, h2, h4, Res.isErr]
+        | some nb => right; exact ⟨nb, h0, h1, by omega, rfl, by simp [h0, h1, h2, h4]⟩
     · left; simp [h0, h1, Res.isErr]
 
 theorem execTransfer_cases (s : State σ κ) (f t e : σ) (amt : Int) :
     Failed (execTransfer c s f t e amt) s ∨
-    (f ≠ t ∧ c.norm f ≠ c.norm t ∧ checkAmount amt = true ∧ 0 ≤ wrap ((loadSub c s f e).bal - amt) ∧
+    ∃ nb, f ≠ t ∧ c.norm f ≠ c.norm t ∧ checkAmount amt = true ∧
+      0 ≤ wrap ((loadSub c s f e).bal - amt) ∧ safeAdd (loadSub c s t e).bal amt = some nb ∧
       execTransfer c s f t e amt =
         (saveSub c (saveSub c s e { loadSub c s f e with bal := wrap ((loadSub c s f e).bal - amt) }) e
-          { loadSub c s t e with bal := wrap ((loadSub c s t e).bal + amt) }, .ok)) := by
+          { loadSub c s t e with bal := nb }, .ok) := by
   unfold execTransfer Failed
   by_cases h0 : f = t ∨ c.norm f = c.norm t
   · left; simp [h0, Res.isErr]
   · by_cases h1 : checkAmount amt = true
     · by_cases h2 : wrap ((loadSub c s f e).bal - amt) < 0
       · left; simp [h0, h1, h2, Res.isErr]
-      · right; exact ⟨fun h => h0 (Or.inl h), fun h => h0 (Or.inr h), h1, by omega, by simp [h0, h1, h2]⟩
+      · cases h4 : safeAdd (loadSub c s t e).bal amt with
+        | none => left; simp [h0, h1, h2, h4, Res.isErr]
+        | some nb =>
+          right
+          exact ⟨nb, fun h => h0 (Or.inl h), fun h => h0 (Or.inr h), h1, by omega, rfl,
+            by simp [h0, h1, h2, h4]⟩
     · left; simp [h0, h1, Res.isErr]
 
 theorem execTransferFrozen_cases (s : State σ κ) (f t e : σ) (amt : Int) :
     Failed (execTransferFrozen c s f t e amt) s ∨
-    (f ≠ t ∧ c.norm f ≠ c.norm t ∧ checkAmount amt = true ∧ 0 ≤ wrap ((loadSub c s f e).frz - amt) ∧
+    ∃ nb, f ≠ t ∧ c.norm f ≠ c.norm t ∧ checkAmount amt = true ∧
+      0 ≤ wrap ((loadSub c s f e).frz - amt) ∧ safeAdd (loadSub c s t e).bal amt = some nb ∧
       execTransferFrozen c s f t e amt =
         (saveSub c (saveSub c s e { loadSub c s f e with frz := wrap ((loadSub c s f e).frz - amt) }) e
-          { loadSub c s t e with bal := wrap ((loadSub c s t e).bal + amt) }, .ok)) := by
+          { loadSub c s t e with bal := nb }, .ok) := by
   unfold execTransferFrozen Failed
   by_cases h0 : f = t ∨ c.norm f = c.norm t
   · left; simp [h0, Res.isErr]
   · by_cases h1 : checkAmount amt = true
     · by_cases h2 : wrap ((loadSub c s f e).frz - amt) < 0
       · left; simp [h0, h1, h2, Res.isErr]
-      · right; exact ⟨fun h => h0 (Or.inl h), fun h => h0 (Or.inr h), h1, by omega, by simp [h0, h1, h2]⟩
+      · cases h4 : safeAdd (loadSub c s t e).bal amt with
+        | none => left; simp [h0, h1, h2, h4, Res.isErr]
+        | some nb =>
+          right
+          exact ⟨nb, fun h => h0 (Or.inl h), fun h => h0 (Or.inr h), h1, by omega, rfl,
+            by simp [h0, h1, h2, h4]⟩
     · left; simp [h0, h1, Res.isErr]
+
+theorem depositFrozen2_cases (s : State σ κ) (a e : σ) (amt : Int) :
+    Failed (depositFrozen2 c s a e amt) s ∨
+    ∃ nf, safeAdd (loadSub c s a e).frz amt = some nf ∧
+      depositFrozen2 c s a e amt = (saveSub c s e { loadSub c s a e with frz := nf }, .ok) := by
+  unfold depositFrozen2 Failed
+  cases h4 : safeAdd (loadSub c s a e).frz amt with
+  | none => left; simp [h4, Res.isErr]
+  | some nf => right; exact ⟨nf, rfl, by simp [h4]⟩
 
 theorem execIssue_cases (s : State σ κ) (e : σ) (amt : Int) :
     Failed (execIssue c s e amt) s ∨
